@@ -19,3 +19,39 @@ func Listen() (net.Listener, error) {
 	}
 	return nil, err
 }
+
+// PortExhausted reports whether an error of the code under test is the local machine running out of
+// ephemeral ports: that is a condition of the harness run, never an observation about the code.
+func PortExhausted(err error) bool {
+	if err == nil {
+		return false
+	}
+	m := err.Error()
+	for _, p := range []string{"cannot assign requested address", "address already in use", "too many open files"} {
+		if containsFold(m, p) {
+			return true
+		}
+	}
+	return false
+}
+
+func containsFold(s, sub string) bool {
+	n, m := len(s), len(sub)
+	for i := 0; i+m <= n; i++ {
+		j := 0
+		for j < m {
+			a, b := s[i+j], sub[j]
+			if 'A' <= a && a <= 'Z' {
+				a += 'a' - 'A'
+			}
+			if a != b {
+				break
+			}
+			j++
+		}
+		if j == m {
+			return true
+		}
+	}
+	return false
+}
